@@ -224,9 +224,11 @@ Oblige(old, new) ==
   \* frames fed back to back are judged together (their callbacks cannot be told apart): duties add
   \* up, prohibitions hold only if every one of the frames prohibits
   IN IF old.obl
-     THEN LET mu == old.must \cup (must \ mustnot)
+     \* one callback may hold several subscriptions (all updates and AC state of the same unit): it is
+     \* owed a call if any of them is, and forbidden one only if all of them are
+     THEN LET mu == old.must \cup must
           IN [new EXCEPT !.must = mu, !.mustnot = (old.mustnot \cap mustnot) \ mu]
-     ELSE [new EXCEPT !.obl = TRUE, !.must = must \ mustnot, !.mustnot = mustnot, !.seen = <<>>]
+     ELSE [new EXCEPT !.obl = TRUE, !.must = must, !.mustnot = mustnot \ must, !.seen = <<>>]
 
 Callback(cs, ev) ==
   LET ix == {i \in 1..Len(cs.subs) : cs.subs[i].who = ev.who}
@@ -365,7 +367,9 @@ RetApi(cs, ev) ==
                ELSE IF cs.now > cs.t0 + INIT_TIMEOUT THEN CV(c1, "InitLate")
                ELSE c1
   ELSE IF cs.phase = "closing" /\ ev.method = "shutdown"
-  THEN [cs EXCEPT !.phase = "idle", !.up = FALSE]
+  THEN \* C15 speaks of shutdown() returning: it is not allowed to throw (a CancelledError of one of the
+       \* client's own tasks, say) at its caller instead
+       [(IF ev.res # "ok" THEN CV(cs, "ShutdownRaised") ELSE cs) EXCEPT !.phase = "idle", !.up = FALSE]
   ELSE IF cs.phase = "idle" /\ cs.everShut /\ ev.method = "check_for_updates"
   THEN IF ev.res = "NotOpenError" THEN cs ELSE CV(cs, "NotOpenNotRaised")      \* C15: sending raises the not-open error
   ELSE LET ix == {i \in 1..Len(cs.cmds) : cs.cmds[i].id = ev.id /\ ~cs.cmds[i].done}
